@@ -11,6 +11,7 @@ Not decided: equality of whole runs (an execution relation); the solver's own de
 """
 
 import ast
+import collections
 import symtable
 
 from sa.cfg import cfg_of
@@ -54,8 +55,49 @@ OWNER_ONLY_CALLEES = {
 }
 
 
+def owners_closure(repo):
+    """OWNERS extended by private helpers that are only ever called from owners of the same family (a block of an owner that was
+    extracted into its own method stays part of the owner)."""
+    cache = repo.__dict__.get("_c14_owners")
+    if cache is not None:
+        return cache
+    out = {fam: set(v) for fam, v in OWNERS.items()}
+
+    def is_owner(q, fam):
+        return any(q == o or q.startswith(o + ".") for o in out[fam])
+
+    callers = collections.defaultdict(set)   # short name -> qualified callers
+    for q, f in repo.all_functions():
+        if isinstance(f, ast.Lambda):
+            continue
+        for c in ast.walk(f):
+            if isinstance(c, ast.Call):
+                n = call_name(c).split(".")[-1]
+                callers[n].add(q)
+    changed = True
+    while changed:
+        changed = False
+        for q, f in repo.all_functions():
+            if isinstance(f, ast.Lambda):
+                continue
+            short = q.split("::")[-1].split(".")[-1]
+            if not short.startswith("_") or short.startswith("__"):
+                continue
+            cs = callers.get(short, set()) - {q}
+            # the name must be unambiguous in the package, or the helper could be reached from elsewhere under the same name
+            same_name = [q2 for q2, _ in repo.all_functions() if q2.split("::")[-1].split(".")[-1] == short]
+            if not cs or len(same_name) != 1:
+                continue
+            for fam in out:
+                if not is_owner(q, fam) and all(is_owner(c_, fam) for c_ in cs):
+                    out[fam].add(q)
+                    changed = True
+    repo.__dict__["_c14_owners"] = out
+    return out
+
+
 def r1(repo, res):
-    prog, results = analyse(repo, OWNERS)
+    prog, results = analyse(repo, owners_closure(repo))
     total = 0
     nonowner_fn = 0
     for q, fa in sorted(results.items()):
@@ -574,7 +616,7 @@ def r5(repo, res):
             if any(x in ast.unparse(d) for x in ("lru_cache", "cache", "cached_property")):
                 res.ob("C14.R5", f, d, False, expected="no memoisation across calls", found=ast.unparse(d), key=f"cache:{q}")
     # mutable default arguments that are written through
-    prog, results = analyse(repo, OWNERS, rounds=3)
+    prog, results = analyse(repo, owners_closure(repo), rounds=3)
     for q, fa in results.items():
         f = fa.func
         if isinstance(f, ast.Lambda):
@@ -666,7 +708,7 @@ def r7(repo, res):
                                 fields.add(n.targets[0].attr)
     res.count("C14.R7:auto-creating evidence tables", len(fields))
     hits = 0
-    prog_owner = lambda q: any(q == o or q.startswith(o + ".") for o in OWNERS["E"])  # noqa
+    prog_owner = lambda q: any(q == o or q.startswith(o + ".") for o in owners_closure(repo)["E"])  # noqa
     for q, f in repo.all_functions():
         if isinstance(f, ast.Lambda) or prog_owner(q):
             continue
